@@ -144,3 +144,200 @@ example :
     let (_, b) := get w 4 "foo"
     a = some 30 ∧ b = some 10 := by decide +kernel
 end ZI.AttrsW
+
+/-! ## composition with the C02 history invariant: the memo never changes an answer, after ANY history -/
+namespace ZI.AttrsW
+open ZI.Upd ZI.Attrs ZI.Graph2 ZI.RO
+local notation "Id" => Nat
+
+theorem c3Node_bases_congr {B B' : Bases} (leg : Id → List Id) (r : Id → Res) (c : Id) (h : B c = B' c) :
+    c3Node B leg r c = c3Node B' leg r c := by
+  unfold c3Node; rw [h]
+
+/-- the order computed from scratch only looks at the base lists of what it reaches -/
+theorem sroFresh_congr {B B' : Bases} {root : Id} : ∀ (f : Nat) (c : Id), (∀ x, Reach B c x → B x = B' x) →
+    sroFresh B root f c = sroFresh B' root f c := by
+  intro f
+  induction f with
+  | zero => intro c _; rfl
+  | succ f ih =>
+    intro c h
+    by_cases hc : c = root
+    · subst hc; rw [sroFresh_succ_root, sroFresh_succ_root]
+    · rw [sroFresh_succ_ne B root f hc, sroFresh_succ_ne B' root f hc]
+      unfold sroStep
+      have hleg : legacyRo B (f+1) c = legacyRo B' (f+1) c := by
+        unfold legacyRo; rw [flatten_congr (f+1) c h]
+      have hb : ∀ b ∈ B c, (⟨sroFresh B root f b, false⟩ : Res) = ⟨sroFresh B' root f b, false⟩ := by
+        intro b hb
+        rw [ih b (fun x hx => h x (Reach.step hb hx))]
+      rw [c3Node_congr (legacyRo B (f+1)) (legacyRo B' (f+1)) _ _ c hleg hb,
+          c3Node_bases_congr _ _ c (h c (Reach.refl c))]
+
+/-- the specification an operation targets -/
+def target : Op → Id | .new s _ => s | .set s _ => s
+
+theorem bases_step (g : G) (op : Op) : (step g op).bases = upd g.bases (target op) (match op with | .new _ bs => bs | .set _ bs => bs) := by
+  cases op with
+  | set s bs => exact bases_setBases g s bs
+  | new s bs => exact bases_setBases { g with ids := g.ids ++ [s] } s bs
+
+theorem root_step (g : G) (op : Op) : (step g op).root = g.root := by
+  cases op with
+  | set s bs => exact root_setBases g s bs
+  | new s bs => exact root_setBases { g with ids := g.ids ++ [s] } s bs
+
+/-- **what `changed()` does not visit keeps its cached order**: in every state reachable by a well-formed history, an
+operation on `s` leaves the cached order of every specification that is not `s` and does not (now) extend `s` as it was -/
+theorem step_untouched (g : G) (op : Op) (hi : Inv g) (hw : WFOp g op) (hroot : g.root = 0) (hb0 : g.bases 0 = [])
+    (hs : target op ≠ 0) (x : Id) (hv : visited (step g op) (target op) x = false) :
+    (step g op).sro x = g.sro x := by
+  obtain ⟨N', hg', _⟩ := inv_step g op hi hw
+  obtain ⟨N, hg, _⟩ := hi
+  obtain ⟨rank', ha', hr'⟩ := hg'.acyc
+  obtain ⟨rank, ha, hr⟩ := hg.acyc
+  have hroot' : (step g op).root = 0 := by rw [root_step, hroot]
+  have hb0' : (step g op).bases 0 = [] := by
+    rw [bases_step]; simp only [Graph2.upd]
+    have : ¬ (0 = target op) := fun e => hs e.symm
+    simp [this, hb0]
+  -- a common fuel above both rank bounds
+  have hf' := hg'.fresh (N + N' + 1) (by omega) x
+  have hf := hg.fresh (N + N' + 1) (by omega) x
+  rw [hf', hf, hroot', hroot]
+  -- `x` does not reach `s` in the new graph
+  simp only [visited, Bool.or_eq_false_iff, beq_eq_false_iff_ne, ne_eq] at hv
+  have hnot : ¬ Reach (step g op).bases x (target op) := by
+    intro hreach
+    have hb0'' : (step g op).bases (step g op).root = [] := by rw [hroot']; exact hb0'
+    have hmem := (sroFresh_valid ha' hb0'' (N + N' + 1) x (by have := hr' x; omega)).mem (target op)
+    have : target op ∈ (step g op).sro x := by
+      rw [hf']; exact hmem.mpr (Or.inl hreach)
+    exact absurd (List.contains_iff_mem.mpr this) (by simpa using hv.2)
+  apply sroFresh_congr
+  intro y hy
+  rw [bases_step]
+  have : y ≠ target op := fun e => hnot (e ▸ hy)
+  simp [Graph2.upd, this]
+
+/-! ### histories of the attribute world -/
+inductive WOp
+  | newIface (s : Id) (bs : List Id) (attrs : Attrs) (tags : AList String Nat) (invs : List (Nat × Bool))
+  | setBases (s : Id) (bs : List Id)
+  | get (i : Id) (n : String)
+
+def wstep (w : W) : WOp → W
+  | .newIface s bs a t iv => newIface w s bs a t iv
+  | .setBases s bs => setBases w s bs
+  | .get i n => (get w i n).1
+
+/-- the graph operation behind a world operation -/
+def gop : WOp → Option Op
+  | .newIface s bs _ _ _ => some (.new s bs)
+  | .setBases s bs => some (.set s bs)
+  | .get _ _ => none
+
+/-- well-formedness in a state: the graph part is well-formed (duplicate-free bases, no cycle), the root is never the
+target, and a new interface is really new as far as attribute tables go (nobody's memo mentions it: it is visited anyway) -/
+def WFW (w : W) (op : WOp) : Prop :=
+  match gop op with
+  | some o => WFOp w.g o ∧ target o ≠ 0
+  | none => True
+
+/-- the invariant carried along -/
+structure WInv (w : W) : Prop where
+  ginv : Inv w.g
+  root : w.g.root = 0
+  b0 : w.g.bases 0 = []
+  memo : MemoOk w
+
+theorem memoOk_rebase (w : W) (g' : G) (s : Id) (direct' : Id → Attrs) (h : MemoOk w)
+    (hunt : ∀ x, visited g' s x = false → g'.sro x = w.g.sro x)
+    (hdir : ∀ x, visited g' s x = false → ∀ j ∈ (g'.sro x).filter w.isIface, direct' j = w.direct j) :
+    MemoOk { w with g := g', direct := direct', memo := fun x => if visited g' s x then [] else w.memo x } := by
+  intro i n d he
+  by_cases hv : visited g' s i = true
+  · simp [hv, get?_nil] at he
+  · have hv' : visited g' s i = false := by simpa using hv
+    simp only [hv', Bool.false_eq_true, if_false] at he
+    have h0 := h i n d he
+    simp only [W.iro] at h0 ⊢
+    rw [hunt i hv']
+    unfold getAttr at h0 ⊢
+    rw [← h0]
+    have hcongr : ∀ (l : List Nat), (∀ j ∈ l, direct' j = w.direct j) →
+        l.findSome? (fun j => get? (direct' j) n) = l.findSome? (fun j => get? (w.direct j) n) := by
+      intro l
+      induction l with
+      | nil => intro _; rfl
+      | cons a t ih =>
+        intro hl
+        simp only [List.findSome?_cons]
+        rw [hl a (List.mem_cons_self ..), ih (fun j hj => hl j (List.mem_cons_of_mem _ hj))]
+    exact hcongr _ (fun j hj => hdir i hv' j (by rw [hunt i hv']; exact hj))
+
+theorem winv_step (w : W) (op : WOp) (hi : WInv w) (hw : WFW w op) : WInv (wstep w op) := by
+  cases op with
+  | get i n =>
+    have hg : (wstep w (.get i n)).g = w.g := by
+      simp only [wstep, get]
+      cases get? (w.memo i) n with
+      | some d => rfl
+      | none => cases getAttr (w.iro i) w.direct n <;> rfl
+    exact ⟨hg ▸ hi.ginv, hg ▸ hi.root, hg ▸ hi.b0, get_memoOk w hi.memo i n⟩
+  | setBases s bs =>
+    simp only [WFW, gop] at hw
+    have hstep : Graph2.setBases w.g s bs = step w.g (.set s bs) := rfl
+    refine ⟨inv_step w.g (.set s bs) hi.ginv hw.1, ?_, ?_, ?_⟩
+    · show (Graph2.setBases w.g s bs).root = 0; rw [root_setBases]; exact hi.root
+    · show (Graph2.setBases w.g s bs).bases 0 = []
+      rw [bases_setBases]; have : ¬ (0 = s) := fun e => hw.2 e.symm
+      simp [Graph2.upd, this, hi.b0]
+    · exact setBases_memoOk w hi.memo s bs (fun x hx => step_untouched w.g (.set s bs) hi.ginv hw.1 hi.root hi.b0 hw.2 x hx)
+  | newIface s bs a t iv =>
+    simp only [WFW, gop] at hw
+    refine ⟨inv_step w.g (.new s bs) hi.ginv hw.1, ?_, ?_, ?_⟩
+    · show (newNode w.g s bs).root = 0
+      exact (root_step w.g (.new s bs)).trans hi.root
+    · show (newNode w.g s bs).bases 0 = []
+      have := bases_step w.g (.new s bs)
+      show (step w.g (.new s bs)).bases 0 = []
+      rw [this]; have : ¬ (0 = s) := fun e => hw.2 e.symm
+      simp [Graph2.upd, target, this, hi.b0]
+    · -- the new interface's own tables are new; everybody not visited keeps order and tables
+      have hunt := fun x hx => step_untouched w.g (.new s bs) hi.ginv hw.1 hi.root hi.b0 hw.2 x hx
+      have hmo := memoOk_rebase w (newNode w.g s bs) s (Graph2.upd w.direct s a) hi.memo hunt (by
+        intro x hx j hj
+        -- `s` is not in the order of an unvisited specification
+        have hjs : j ≠ s := by
+          intro e; subst e
+          simp only [visited, Bool.or_eq_false_iff] at hx
+          have hm : j ∈ (newNode w.g j bs).sro x := (List.mem_filter.mp hj).1
+          exact absurd (List.contains_iff_mem.mpr hm) (by simpa using hx.2)
+        simp [Graph2.upd, hjs])
+      intro i n d he
+      exact hmo i n d he
+
+theorem winv_init : WInv { g := Graph2.init 0 } :=
+  ⟨⟨0, good_init 0, Nat.zero_le _⟩, rfl, rfl, fun _ _ _ h => by simp [get?_nil] at h⟩
+
+/-- every operation of a history is well-formed in the state it is applied to -/
+def WFWHist (w : W) : List WOp → Prop
+  | [] => True
+  | op :: rest => WFW w op ∧ WFWHist (wstep w op) rest
+
+theorem winv_run : ∀ (ops : List WOp) (w : W), WInv w → WFWHist w ops → WInv (ops.foldl wstep w) := by
+  intro ops
+  induction ops with
+  | nil => intro w h _; exact h
+  | cons op rest ih => intro w h hw; exact ih _ (winv_step w op h hw.1) hw.2
+
+/-- **C15_get over histories**: after ANY well-formed history of interface creations, `__bases__` reassignments and
+lookups (which fill the `_v_attrs` memo), `I.get(name)` — hence `I[name]`, `name in I`, `queryDescriptionFor` — answers
+"the description of the first interface along the current `__iro__` that defines the name", and that `__iro__` is the one
+a freshly built hierarchy has (C15_follow) -/
+theorem C15_get_history (ops : List WOp) (hw : WFWHist { g := Graph2.init 0 } ops) (i : Id) (n : String) :
+    let w := ops.foldl wstep { g := Graph2.init 0 }
+    (get w i n).2 = getAttr (w.iro i) w.direct n :=
+  C15_get _ (winv_run ops _ winv_init hw).memo i n
+end ZI.AttrsW
